@@ -137,3 +137,118 @@ Lemma unsupported_refused :
   resolve_font (FNum 0) = Err ValueErr /\ resolve_font (FNum 11) = Err ValueErr
   /\ resolve_font (FName (s2l "Comic Sans")) = Err ValueErr /\ unit_of (s2l "cm") = Err ValueErr.
 Proof. vm_compute. repeat split; reflexivity. Qed.
+
+(* ---- the API-level function: non-negative, zero on the empty string, monotone, linear in the size ---- *)
+Local Open Scope Q_scope.
+
+Lemma width_px_value font adv kern size s :
+  font_metrics font = Some (adv, kern) ->
+  exists q, width_px font size s = Ok q /\ q == (width64 adv kern s # 64) * size / (ref_size # 1).
+Proof.
+  intro H. unfold width_px. rewrite H. eexists; split; [reflexivity|apply Qred_correct].
+Qed.
+
+Lemma q64_nonneg z : (0 <= z)%Z -> 0 <= z # 64.
+Proof. intro H. unfold Qle; cbn. lia. Qed.
+
+Lemma q64_le a b : (a <= b)%Z -> a # 64 <= b # 64.
+Proof. intro H. unfold Qle; cbn. lia. Qed.
+
+Lemma ref_pos : 0 < ref_size # 1.
+Proof. reflexivity. Qed.
+
+Theorem width_px_nonneg font size s q :
+  0 <= size -> width_px font size s = Ok q -> 0 <= q.
+Proof.
+  intros Hs Hq. destruct (font_metrics font) as [[adv kern]|] eqn:Hm.
+  - destruct (width_px_value font adv kern size s Hm) as [q' [E1 E2]].
+    rewrite E1 in Hq. injection Hq as <-. rewrite E2.
+    apply Qle_shift_div_l; [exact ref_pos|]. rewrite Qmult_0_l.
+    apply Qmult_le_0_compat; [|exact Hs]. apply q64_nonneg. exact (font_width_nonneg font adv kern s Hm).
+  - unfold width_px in Hq. rewrite Hm in Hq. discriminate.
+Qed.
+
+Theorem width_px_empty font size q : width_px font size [] = Ok q -> q == 0.
+Proof.
+  intro Hq. destruct (font_metrics font) as [[adv kern]|] eqn:Hm.
+  - destruct (width_px_value font adv kern size [] Hm) as [q' [E1 E2]].
+    rewrite E1 in Hq. injection Hq as <-. rewrite E2. cbn [width64]. unfold Qdiv. ring_simplify. reflexivity.
+  - unfold width_px in Hq. rewrite Hm in Hq. discriminate.
+Qed.
+
+Theorem width_px_append_mono font size s c q1 q2 :
+  0 <= size -> width_px font size s = Ok q1 -> width_px font size (s ++ [c])%list = Ok q2 -> q1 <= q2.
+Proof.
+  intros Hs H1 H2. destruct (font_metrics font) as [[adv kern]|] eqn:Hm.
+  - destruct (width_px_value font adv kern size s Hm) as [a [A1 A2]].
+    destruct (width_px_value font adv kern size (s ++ [c])%list Hm) as [b [B1 B2]].
+    rewrite A1 in H1. injection H1 as <-. rewrite B1 in H2. injection H2 as <-.
+    rewrite A2, B2. unfold Qdiv. apply Qmult_le_compat_r.
+    + apply Qmult_le_compat_r; [|exact Hs]. apply q64_le. exact (font_width_append_mono font adv kern s c Hm).
+    + apply Qlt_le_weak, Qinv_lt_0_compat, ref_pos.
+  - unfold width_px in H1. rewrite Hm in H1. discriminate.
+Qed.
+
+(* the model is exactly linear in the font size: k times the size gives k times the width *)
+Theorem width_px_linear font size k s q1 q2 :
+  width_px font size s = Ok q1 -> width_px font (k * size) s = Ok q2 -> q2 == k * q1.
+Proof.
+  intros H1 H2. destruct (font_metrics font) as [[adv kern]|] eqn:Hm.
+  - destruct (width_px_value font adv kern size s Hm) as [a [A1 A2]].
+    destruct (width_px_value font adv kern (k * size) s Hm) as [b [B1 B2]].
+    rewrite A1 in H1. injection H1 as <-. rewrite B1 in H2. injection H2 as <-.
+    rewrite A2, B2. unfold Qdiv. ring.
+  - unfold width_px in H1. rewrite Hm in H1. discriminate.
+Qed.
+
+(* conversions keep order and sign for a positive dpi *)
+Lemma convert_mono u dpi a b : 0 < dpi -> a <= b -> convert u dpi a <= convert u dpi b.
+Proof.
+  intros Hd Hab. assert (Hi : 0 <= / dpi) by (apply Qlt_le_weak, Qinv_lt_0_compat, Hd).
+  destruct u; unfold convert, Qdiv.
+  - apply Qmult_le_compat_r; assumption.
+  - apply Qmult_le_compat_r; [apply Qmult_le_compat_r; assumption|discriminate].
+  - exact Hab.
+Qed.
+
+Lemma convert_zero u dpi : convert u dpi 0 == 0.
+Proof. destruct u; unfold convert, Qdiv; ring. Qed.
+
+Lemma convert_proper u dpi a b : a == b -> convert u dpi a == convert u dpi b.
+Proof. intro H. destruct u; unfold convert; rewrite H; reflexivity. Qed.
+
+Lemma gsw_inv s f size unit dpi w :
+  get_string_width s f size unit dpi = Ok w ->
+  exists n px u, resolve_font f = Ok n /\ width_px n size s = Ok px /\ unit_of unit = Ok u /\ w = convert u dpi px.
+Proof.
+  unfold get_string_width, bind. intro H.
+  destruct (resolve_font f) as [n|] eqn:E1; [|discriminate].
+  destruct (width_px n size s) as [px|] eqn:E2; [|discriminate].
+  destruct (unit_of unit) as [u|] eqn:E3; [|discriminate].
+  injection H as <-. exists n, px, u. repeat split; first [assumption|reflexivity].
+Qed.
+
+Theorem get_string_width_nonneg s f size unit dpi w :
+  0 <= size -> 0 < dpi -> get_string_width s f size unit dpi = Ok w -> 0 <= w.
+Proof.
+  intros Hs Hd H. destruct (gsw_inv _ _ _ _ _ _ H) as [n [px [u [E1 [E2 [E3 ->]]]]]].
+  rewrite <- (convert_zero u dpi). apply convert_mono; [exact Hd|]. exact (width_px_nonneg n size s px Hs E2).
+Qed.
+
+Theorem get_string_width_empty f size unit dpi w :
+  get_string_width [] f size unit dpi = Ok w -> w == 0.
+Proof.
+  intro H. destruct (gsw_inv _ _ _ _ _ _ H) as [n [px [u [E1 [E2 [E3 ->]]]]]].
+  rewrite (convert_proper u dpi px 0 (width_px_empty n size px E2)). apply convert_zero.
+Qed.
+
+Theorem get_string_width_append_mono s c f size unit dpi w1 w2 :
+  0 <= size -> 0 < dpi ->
+  get_string_width s f size unit dpi = Ok w1 -> get_string_width (s ++ [c])%list f size unit dpi = Ok w2 -> w1 <= w2.
+Proof.
+  intros Hs Hd H1 H2.
+  destruct (gsw_inv _ _ _ _ _ _ H1) as [n [px [u [E1 [E2 [E3 ->]]]]]].
+  destruct (gsw_inv _ _ _ _ _ _ H2) as [n' [px' [u' [F1 [F2 [F3 ->]]]]]].
+  rewrite E1 in F1. injection F1 as <-. rewrite E3 in F3. injection F3 as <-.
+  apply convert_mono; [exact Hd|]. exact (width_px_append_mono n size s c px px' Hs E2 F2).
+Qed.
